@@ -9,6 +9,9 @@
 (*     aggregate of, per thread, some prefix of that thread's counts that  *)
 (*     contains every count completed before the read began and nothing    *)
 (*     that started after the read returned                                *)
+(*  (also when another counter of the same type is being DESTROYED while   *)
+(*  this one is constructed, counted into and read: scenario "dtor")       *)
+(*  NewCounterStartsAtZero : a counter constructed at quiescence reads 0   *)
 (*  QuiescentExact / ExtremeOfCurrentPeriod : the read after all threads   *)
 (*     were joined (including the thread that exited before the others     *)
 (*     started, whose slot a later thread re-uses) is exact                *)
@@ -82,11 +85,16 @@ MNext ==
           [] e.k = "call" /\ e.op = "value" ->
                /\ rlo' = [rlo EXCEPT ![e.t] = done] /\ UNCHANGED <<kind, seqs, done, prevp, bad>>
           [] e.k = "ret" /\ e.op = "value" ->
-               /\ bad' = Flag(IF TornFirstCount(Obs(e)) THEN "ConcurrentReadBounds_TornFirstCountOfPeriod" ELSE "ConcurrentReadBounds",
+               /\ bad' = Flag(IF TornFirstCount(Obs(e)) THEN "ConcurrentReadBounds_TornFirstCountOfPeriod"
+                            ELSE IF \A t \in Thrs : Len(seqs[t]) = 0 THEN "NewCounterStartsAtZero"    \* nothing counted yet
+                            ELSE "ConcurrentReadBounds",
                             ReadBoundsOK(seqs, rlo[e.t], Hi, Obs(e)))
                /\ UNCHANGED <<kind, seqs, done, rlo, prevp>>
           [] e.k = "final" ->
                /\ bad' = Flag(IF IsCmp THEN "ExtremeOfCurrentPeriod" ELSE "QuiescentExact", ReadBoundsOK(seqs, Hi, Hi, Obs(e)))
+               /\ UNCHANGED <<kind, seqs, done, rlo, prevp>>
+          [] e.k = "fresh" ->    \* a counter constructed at quiescence, read at once
+               /\ bad' = Flag("NewCounterStartsAtZero", e.r1 = 0 /\ e.r2 = 0 /\ (IsCmp => ~e.has))
                /\ UNCHANGED <<kind, seqs, done, rlo, prevp>>
           [] e.k = "end" ->
                /\ bad' = Flag("NoCrash", e.status = "ok")
